@@ -86,7 +86,8 @@ def _alarm(_sig, _frm):
     raise _Hang()
 
 
-CPU_BUDGET = 10.0  # seconds of CPU time (not wall-clock) a single next() may use; a healthy one takes microseconds
+CPU_BUDGET = 3.0  # seconds of CPU time (not wall-clock) a single next() may use; a healthy one takes microseconds
+_GIVE_UP = {"on": False}  # a non-termination has been confirmed in this worker process: stop generating
 
 
 def guarded_next(it, seconds=CPU_BUDGET):
@@ -110,6 +111,10 @@ def run_confirmed(run):
     the history itself).  A hang that does not reproduce is an infrastructure problem (exit 2), never a verdict."""
     from harness.common import Infra
 
+    if _GIVE_UP["on"]:
+        # non-termination is already established (and reported with its history) by this worker; every further
+        # history that parks a generator would burn the CPU budget again, so the rest of the worker's share is skipped
+        return _Skipped()
     try:
         return run(False)
     except _HangAbort:
@@ -117,7 +122,24 @@ def run_confirmed(run):
     res = run(True)
     if not (res.get("aborted") if isinstance(res, dict) else getattr(res, "aborted", False)):
         raise Infra("a next() exceeded its CPU budget once, but the same history ran normally when re-executed")
+    _GIVE_UP["on"] = True
     return res
+
+
+class _Skipped(dict):
+    """stands for a history that was not executed (see run_confirmed); behaves as an aborted Hist / pack"""
+
+    aborted = True
+    failed = False
+    ops: list = []
+    curs: list = []
+    init: list = []
+
+    def __init__(self):
+        super().__init__(aborted=True)
+
+    class ref:  # noqa: N801
+        L: list = []
 
 # ----------------------------------------------------------------------------- reference spec
 
@@ -1006,7 +1028,11 @@ def enumerate_small(kind, n0, universe, dirs, pre, depth, part, sink):
     generators cannot be copied). `sink(h)` receives every executed history."""
 
     def rec(prefix):
+        if _GIVE_UP["on"]:
+            return
         h = run_explicit(kind, n0, universe, dirs, pre, prefix, part)
+        if h.aborted:
+            return
         sink(h)
         if len(prefix) >= depth:
             return
@@ -1498,7 +1524,7 @@ def _cross_history(kind, rng, part, nops, tag, confirm):
             c["expect"] = None
             c["touched"] |= touched
             if c["last"] in touched:
-                if c["last"] == removed and not c["last_touched"] and before is not None:
+                if c["last"] == removed and not c["last_touched"] and before is not None and removed in before:
                     i = before.index(removed)
                     if c["d"] == "f":
                         c["expect"] = before[i + 1] if i + 1 < len(before) else STOP
